@@ -323,6 +323,8 @@ pub const ATTR_NAMES: &[&str] = &[
 const TEXTS: &[&str] = &[
     "x", "hello world", "42", " ", "\n  ", "\n", "&amp;", "&lt;b&gt;", "&#x41;", "&#65;", "a &amp; b", "]]", "--", "?",
     "текст", "\t", " padded ", "'", "\"", "/>", "=",
+    // references to entities a DTD may declare (the reader does not resolve them; they are ordinary non-empty text)
+    "&e;", "&nbsp;", "a&copy;b", "&e;&e;",
 ];
 const CDATAS: &[&str] = &["", "x", "<b>not an element</b>", " ", "]]", "&amp;", "a]]b", "-->", "?>", "текст"];
 const COMMENTS: &[&str] = &["", " c ", "<x/>", "<x a='1'>", "- - ", "]]>", "?>", "&", "текст", " <r> "];
